@@ -88,7 +88,7 @@ func (vc *VC) heapTypeInv(c *Component, h string, blk int, bound string) {
 			r, k := fmt.Sprintf("r!%d", vc.ctr), fmt.Sprintf("k!%d", vc.ctr)
 			x := "(select (select " + h + " " + r + ") " + k + ")"
 			if inv := vc.typeInv(x, m.Elem(), bound); inv != "true" {
-				vc.facts = append(vc.facts, Fact{fmt.Sprintf("(forall ((%s Int) (%s %s)) (! %s :pattern (%s)))", r, k, vc.S.sortOf(m.Key()), inv, x), "type invariant of stored map values (" + c.Name + ")", blk})
+				vc.facts = append(vc.facts, Fact{fmt.Sprintf("(forall ((%s Int) (%s %s)) (! (=> (< %s %s) %s) :pattern (%s)))", r, k, vc.S.sortOf(m.Key()), r, bound, inv, x), "type invariant of stored map values (" + c.Name + ")", blk})
 			}
 		}
 		return
@@ -113,7 +113,7 @@ func (vc *VC) heapTypeInv(c *Component, h string, blk int, bound string) {
 		if inv == "true" {
 			return
 		}
-		vc.facts = append(vc.facts, Fact{fmt.Sprintf("(forall ((%s Int) (%s Int)) (! %s :pattern (%s)))", r, k, inv, x), "type invariant of stored values (" + c.Name + ")", blk})
+		vc.facts = append(vc.facts, Fact{fmt.Sprintf("(forall ((%s Int) (%s Int)) (! %s :pattern (%s)))", r, k, guardAlloc(r, bound, inv), x), "type invariant of stored values (" + c.Name + ")", blk})
 		return
 	}
 	x := "(select " + h + " " + r + ")"
@@ -121,7 +121,18 @@ func (vc *VC) heapTypeInv(c *Component, h string, blk int, bound string) {
 	if inv == "true" {
 		return
 	}
-	vc.facts = append(vc.facts, Fact{fmt.Sprintf("(forall ((%s Int)) (! %s :pattern (%s)))", r, inv, x), "type invariant of stored values (" + c.Name + ")", blk})
+	vc.facts = append(vc.facts, Fact{fmt.Sprintf("(forall ((%s Int)) (! %s :pattern (%s)))", r, guardAlloc(r, bound, inv), x), "type invariant of stored values (" + c.Name + ")", blk})
+}
+
+// guardAlloc restricts a stored-value invariant that mentions the allocation
+// frontier to references below that frontier: what lies beyond it is not part of
+// the heap yet and must stay unconstrained (allocation does not change the heap
+// variable of a component that is only allocated in).
+func guardAlloc(r, bound, inv string) string {
+	if bound == "" {
+		return inv
+	}
+	return "(=> (< " + r + " " + bound + ") " + inv + ")"
 }
 
 type retInfo struct {
@@ -137,6 +148,7 @@ type loopInfo struct {
 	latches []*ssa.BasicBlock
 	preHeap *State // state at loop entry (loops with their own modifies clause)
 	bound   string // allocation frontier at loop entry
+	entryNames map[string]*specBinding // loop-carried locals: their values at loop entry
 }
 
 // Frame executes one function body (top-level or inlined).
@@ -254,6 +266,11 @@ func (f *Frame) headerPos(h *ssa.BasicBlock) int {
 	consider := func(b *ssa.BasicBlock) {
 		for _, in := range b.Instrs {
 			if _, ok := in.(*ssa.DebugRef); ok {
+				continue
+			}
+			if _, ok := in.(*ssa.Phi); ok {
+				// a phi carries the position of the variable's declaration, which
+				// may precede earlier loops (var errs ...; for ... {}; for ... {})
 				continue
 			}
 			if p := in.Pos(); p.IsValid() && (best == 0 || p < best) {
